@@ -136,7 +136,7 @@ func ruleR08a(c *Ctx) {
 }
 
 // readOnlyLibraryReceivers: library types whose methods do not change what later calls observe.
-var readOnlyLibraryReceivers = []string{"*regexp.Regexp", "*log.Logger", "reflect.Type", "*reflect.rtype", "time.Time", "*time.Location"}
+var readOnlyLibraryReceivers = []string{"*regexp.Regexp", "*strings.Replacer", "*log.Logger", "reflect.Type", "*reflect.rtype", "time.Time", "*time.Location"}
 
 // R08d: a package-level object of the module is not handed to a library call that may keep state in it
 // (pools, caches, once, mutex-guarded memo tables, builders ...).
